@@ -187,6 +187,64 @@ class CrashLab:
             info["ops"] = rec.ops
             info["after"] = self.path.read_bytes()
             ro_pass()
+        elif kind == "ra_same":
+            # the SAME handle object is first opened for reading, closed, and re-opened for appending
+            # (what UkvCollectionBackend does with its cached UKVFile in reading() followed by writing())
+            k, v = b"k-after-r-then-a", b"short"
+            size = self.path.stat().st_size
+            try:
+                h = self.UKVFile(self.path, "r")
+            except Exception as e:
+                ev.append({"ev": "open", "mode": "r", "out": type(e).__name__, "keys": [], "gets": {}, "dsize": size - bof})
+                return ev, info
+            keys, gets = observe_open(h, kt)
+            ev.append({"ev": "open", "mode": "r", "out": "ok", "keys": keys, "gets": gets, "dsize": size - bof})
+            h.close()
+            ev.append({"ev": "close", "dsize": self.path.stat().st_size - bof})
+            size = self.path.stat().st_size
+            h.open("a")
+            keys, gets = observe_open(h, kt)
+            ev.append({"ev": "open", "mode": "a", "out": "ok", "keys": keys, "gets": gets, "dsize": size - bof})
+            try:
+                h.put(k, v)
+                out = "ok"
+            except Exception:
+                out = "refused"
+            ev.append({"ev": "put", "k": kt.tok(k), "kl": len(k), "vl": len(v), "vd": vd(v), "out": out})
+            h.close()
+            ev.append({"ev": "close", "dsize": self.path.stat().st_size - bof})
+            ro_pass()
+        elif kind == "coll_rw":
+            from molli.storage import Collection, UkvCollectionBackend
+            import atexit
+            c = Collection(self.path, UkvCollectionBackend, readonly=False)
+            size = self.path.stat().st_size
+            with c.reading(timeout=10):
+                gets = {}
+                for k in list(c.keys()):
+                    try:
+                        gets[kt.tok(k.encode("latin1"))] = vd(c[k])
+                    except Exception as e:
+                        gets[kt.tok(k.encode("latin1"))] = "!" + type(e).__name__
+                keys = sorted(kt.tok(k.encode("latin1")) for k in c.keys())
+            ev.append({"ev": "open", "mode": "r", "out": "ok", "keys": keys, "gets": gets, "dsize": size - bof})
+            ev.append({"ev": "close", "dsize": self.path.stat().st_size - bof})
+            size = self.path.stat().st_size
+            k, v = "k-coll-after-crash", b"s"
+            with c.writing(timeout=10):
+                gets = {}
+                for kk in list(c.keys()):
+                    try:
+                        gets[kt.tok(kk.encode("latin1"))] = vd(c[kk])
+                    except Exception as e:
+                        gets[kt.tok(kk.encode("latin1"))] = "!" + type(e).__name__
+                keys = sorted(kt.tok(kk.encode("latin1")) for kk in c.keys())
+                ev.append({"ev": "open", "mode": "a", "out": "ok", "keys": keys, "gets": gets, "dsize": size - bof})
+                c[k] = v
+                ev.append({"ev": "put", "k": kt.tok(k.encode()), "kl": len(k), "vl": len(v), "vd": vd(v), "out": "ok"})
+            atexit.unregister(c._backend.flush)
+            ev.append({"ev": "close", "dsize": self.path.stat().st_size - bof})
+            ro_pass()
         elif kind == "coll_r":
             from molli.storage import Collection, UkvCollectionBackend
             import atexit
